@@ -47,6 +47,7 @@ structure KReg (s : LState) : Prop where
   regStartCb : s.pc = .startCb → alookup s.sId s.kst = some .live
   regResume : s.pc = .resumeCmd → alookup s.sId s.kst = some .paused
   regResumeCb : s.pc = .resumeCb → alookup s.sId s.status.last = some .paused ∧ alookup s.sId s.kst = some .live
+  regCcb : s.pc = .completeCb → alookup s.t s.kst ≠ some .paused
 
 structure KBody (s : LState) : Prop where
   lv : KLive s
@@ -60,7 +61,7 @@ def KInv (s : LState) : Prop := finPc s.pc = false → KBody s
 
 /-- control points with a register clause -/
 def regPc : Pc → Bool
-  | .startCmd | .copyCmd | .addS | .startCb | .resumeCmd | .resumeCb => true
+  | .startCmd | .copyCmd | .addS | .startCb | .resumeCmd | .resumeCb | .completeCb => true
   | _ => false
 
 theorem inDone_congr {s s' : LState} (hu : updPc s'.pc = updPc s.pc) (hd : s'.done = s.done) (t : Nat) :
@@ -107,9 +108,10 @@ theorem KBst.move {s s' : LState} (h : KBst s) (hk : s'.kst = s.kst) (hb : s'.bs
 theorem KReg.out {s' : LState} (hp : regPc s'.pc = false) : KReg s' := by
   have hne : ∀ {p : Pc}, regPc p = true → s'.pc ≠ p := by
     intro p hp' hc; rw [hc, hp'] at hp; cases hp
-  refine ⟨?_, ?_, ?_, ?_, ?_, ?_⟩
+  refine ⟨?_, ?_, ?_, ?_, ?_, ?_, ?_⟩
   · rintro (hc | hc) <;> exact absurd hc (hne rfl)
   · rintro (hc | hc) <;> exact absurd hc (hne rfl)
+  · intro hc; exact absurd hc (hne rfl)
   · intro hc; exact absurd hc (hne rfl)
   · intro hc; exact absurd hc (hne rfl)
   · intro hc; exact absurd hc (hne rfl)
@@ -236,15 +238,15 @@ theorem KBody.pauseSent {s : LState} (h : KBody s) (hp : s.pc = .pauseCmd) :
   · intro _; exact alookup_aset_self _ _ _
 
 /-- the trial `c` (running, not yet done) enters `done_trials`; the scheduler has been told
-about the end of its run: it is `dead` (stopped) or `paused` -/
+about the end of its run: it is `dead` (stopped / completed / failed) or `paused` -/
 theorem KBody.ended {s s' : LState} (h : KBody s) (c : Nat) (v : St) (kv : KSt)
-    (hu : updPc s.pc = true) (hu' : updPc s'.pc = true) (hrun : c ∈ s.running) (hnd : c ∉ keys s.done)
-    (hlt : c < s.nStarted) (hnss : kv = .paused → c ∉ s.schedStopped)
+    (hu : updPc s.pc = true) (hu' : updPc s'.pc = true) (hnd : kv = .paused → c ∉ s.schedStopped)
+    (hlt : c < s.nStarted) (hncc0 : s.pc ≠ .completeCb)
     (hr : s'.running = s.running) (hl : s'.status.last = s.status.last) (hn : s'.nStarted = s.nStarted)
     (hd : s'.done = aset c v s.done) (hk : s'.kst = aset c kv s.kst) (hb : s'.bst = s.bst)
     (hss : s'.schedStopped = s.schedStopped ∨ (kv = .dead ∧ s'.schedStopped = sadd c s.schedStopped))
     (hkv : kv = .dead ∨ (kv = .paused ∧ v = .paused ∧ alookup c s.bst = some .paused))
-    (hreg : regPc s'.pc = false) (hrp : s'.pc ≠ .removeP) (hncc : s'.pc ≠ .completeCb) : KBody s' := by
+    (hreg : regPc s'.pc = false) (hrp : s'.pc ≠ .removeP) : KBody s' := by
   have hin : ∀ t, InDone s t → InDone s' t := by
     intro t ht; exact ⟨hu', by rw [hd]; exact (mem_keys_aset _ _ _ _).mpr (Or.inr ht.2)⟩
   have hinc : InDone s' c := ⟨hu', by rw [hd]; exact (mem_keys_aset _ _ _ _).mpr (Or.inl rfl)⟩
@@ -257,7 +259,8 @@ theorem KBody.ended {s s' : LState} (h : KBody s) (c : Nat) (v : St) (kv : KSt)
     · exact h1
   have hkne : ∀ t, t ≠ c → alookup t s'.kst = alookup t s.kst := by
     intro t hne; rw [hk, alookup_aset_ne _ _ _ _ hne]
-  have hmemss : ∀ t, t ∈ s'.schedStopped → t = c ∧ kv = .dead ∨ t ∈ s.schedStopped := by
+  have hkc : alookup c s'.kst = some kv := by rw [hk]; exact alookup_aset_self _ _ _
+  have hmemss : ∀ t, t ∈ s'.schedStopped → (t = c ∧ kv = .dead) ∨ t ∈ s.schedStopped := by
     intro t ht
     rcases hss with h1 | ⟨h1, h2⟩
     · rw [h1] at ht; exact Or.inr ht
@@ -272,7 +275,677 @@ theorem KBody.ended {s s' : LState} (h : KBody s) (c : Nat) (v : St) (kv : KSt)
     · rcases h.lv.live t ht with h1 | h1 | h1
       · exact Or.inl (hin t h1)
       · exact Or.inr (Or.inl (by rw [hkne t hc]; exact h1))
-      · sorry
-  all_goals sorry
+      · exact absurd h1.1 hncc0
+  · intro t ht hs; rw [hr] at ht
+    by_cases hc : t = c
+    · subst hc; exact hinc
+    · rcases hmemss t hs with h1 | h1
+      · exact absurd h1.1 hc
+      · exact hin t (h.lv.stp t ht h1)
+  · intro t ht
+    by_cases hc : t = c
+    · subst hc; exact Or.inr hinc
+    · rw [hkne t hc] at ht
+      rcases h.lv.pausedRun t ht with h1 | h1
+      · exact Or.inl (by rw [hr]; exact h1)
+      · exact Or.inr (hin t h1)
+  · intro t ht; rw [hr] at ht; rw [hl]; exact h.ls.act t ht
+  · intro t ht; rw [hl] at ht; rw [hn]; exact h.ls.boundL t ht
+  · intro t ht
+    by_cases hc : t = c
+    · subst hc
+      rw [hkc] at ht
+      rcases hkv with h1 | ⟨_, h2, _⟩
+      · rw [h1] at ht; cases ht
+      · exact Or.inl ⟨hu', by rw [hd, h2]; exact alookup_aset_self _ _ _⟩
+    · rw [hkne t hc] at ht
+      rcases h.ls.pausedSt t ht with h1 | h1
+      · exact Or.inl ⟨hu', by rw [hd, alookup_aset_ne _ _ _ _ hc]; exact h1.2⟩
+      · exact Or.inr ⟨fun hcc => h1.1 (hin' t hc hcc), by rw [hl]; exact h1.2⟩
+  · intro t ht
+    rcases hmemss t ht with h1 | h1
+    · rw [h1.1, hkc, h1.2]
+    · by_cases hc : t = c
+      · rw [hc, hkc]
+        rcases hkv with h2 | ⟨h2, _, _⟩
+        · rw [h2]
+        · exact absurd (hc ▸ h1) (hnd h2)
+      · rw [hkne t hc]; exact h.dd.dead t h1
+  · intro t ht; rw [hk] at ht
+    rcases (mem_keys_aset _ _ _ _).mp ht with h1 | h1
+    · rw [h1, hn]; exact hlt
+    · rw [hn]; exact h.dd.boundK t h1
+  · intro t ht
+    by_cases hc : t = c
+    · subst hc
+      rw [hkc] at ht
+      rcases hkv with h1 | ⟨_, _, h3⟩
+      · rw [h1] at ht; cases ht
+      · rw [hb]; exact h3
+    · rw [hkne t hc] at ht; rw [hb]; exact h.bs.pausedBst t ht
+
+
+/-! ### the second loop -/
+
+/-- `on_trial_complete` returned; the user callbacks are next -/
+theorem KBody.toCcb {s s' : LState} (h : KBody s) (hS : SInv s) (hp : s.pc = .completeS) (hp' : s'.pc = .completeCb)
+    (ht : s'.t = s.t) (hr : s'.running = s.running) (hl : s'.status.last = s.status.last)
+    (hn : s'.nStarted = s.nStarted) (hd : s'.done = s.done) (hk : s'.kst = aset s.t .dead s.kst)
+    (hb : s'.bst = s.bst) (hss : s'.schedStopped = s.schedStopped) : KBody s' := by
+  have hci : curItemPc s.pc = true := by rw [hp]; rfl
+  obtain ⟨hrun, hlt, _⟩ := item_facts hS h hci
+  have hu : updPc s'.pc = updPc s.pc := by rw [hp, hp']; rfl
+  have hin := inDone_congr hu hd
+  have hkne : ∀ t, t ≠ s.t → alookup t s'.kst = alookup t s.kst := by
+    intro t hne; rw [hk, alookup_aset_ne _ _ _ _ hne]
+  have hkc : alookup s.t s'.kst = some .dead := by rw [hk]; exact alookup_aset_self _ _ _
+  have hnp : ∀ t, alookup t s'.kst = some .paused → t ≠ s.t ∧ alookup t s.kst = some .paused := by
+    intro t hpz
+    have hne : t ≠ s.t := by intro hc; rw [hc, hkc] at hpz; cases hpz
+    exact ⟨hne, by rw [← hkne t hne]; exact hpz⟩
+  refine ⟨⟨?_, ?_, ?_⟩, ⟨?_, ?_, ?_⟩, ⟨?_, ?_⟩, ⟨?_, fun hc => by rw [hp'] at hc; cases hc⟩, ?_⟩
+  · intro t htr; rw [hr] at htr
+    by_cases hc : t = s.t
+    · exact Or.inr (Or.inr ⟨hp', by rw [ht]; exact hc⟩)
+    · rcases h.lv.live t htr with h1 | h1 | h1
+      · exact Or.inl ((hin t).mpr h1)
+      · exact Or.inr (Or.inl (by rw [hkne t hc]; exact h1))
+      · rw [hp] at h1; exact nomatch h1.1
+  · intro t htr hs; rw [hr] at htr; rw [hss] at hs; exact (hin t).mpr (h.lv.stp t htr hs)
+  · intro t hpz
+    rcases h.lv.pausedRun t (hnp t hpz).2 with h1 | h1
+    · exact Or.inl (by rw [hr]; exact h1)
+    · exact Or.inr ((hin t).mpr h1)
+  · intro t htr; rw [hr] at htr; rw [hl]; exact h.ls.act t htr
+  · intro t htl; rw [hl] at htl; rw [hn]; exact h.ls.boundL t htl
+  · intro t hpz
+    rcases h.ls.pausedSt t (hnp t hpz).2 with h1 | h1
+    · exact Or.inl (by rw [hu, hd]; exact h1)
+    · exact Or.inr ⟨fun hc => h1.1 ((hin t).mp hc), by rw [hl]; exact h1.2⟩
+  · intro t hts; rw [hss] at hts
+    by_cases hc : t = s.t
+    · rw [hc, hkc]
+    · rw [hkne t hc]; exact h.dd.dead t hts
+  · intro t htk; rw [hk] at htk
+    rcases (mem_keys_aset _ _ _ _).mp htk with h1 | h1
+    · rw [h1, hn]; exact hlt
+    · rw [hn]; exact h.dd.boundK t h1
+  · intro t hpz; rw [hb]; exact h.bs.pausedBst t (hnp t hpz).2
+  · have hne : ∀ {p : Pc}, p ≠ .completeCb → s'.pc ≠ p := fun hpp hc => hpp (by rw [← hc, hp'])
+    refine ⟨?_, ?_, ?_, ?_, ?_, ?_, ?_⟩
+    · rintro (hc | hc) <;> exact absurd hc (hne (by decide))
+    · rintro (hc | hc) <;> exact absurd hc (hne (by decide))
+    · intro hc; exact absurd hc (hne (by decide))
+    · intro hc; exact absurd hc (hne (by decide))
+    · intro hc; exact absurd hc (hne (by decide))
+    · intro hc; exact absurd hc (hne (by decide))
+    · intro _; rw [ht, hkc]; exact fun hc => nomatch hc
+
+/-- the callbacks' `on_trial_complete` returned: the item is recorded in `done_trials` -/
+theorem KBody.ccbDone {s s' : LState} (h : KBody s) (hp : s.pc = .completeCb) (hp' : s'.pc = .second)
+    (v : St) (hr : s'.running = s.running) (hl : s'.status.last = s.status.last)
+    (hn : s'.nStarted = s.nStarted) (hd : s'.done = aset s.t v s.done) (hk : s'.kst = s.kst)
+    (hb : s'.bst = s.bst) (hss : s'.schedStopped = s.schedStopped) : KBody s' := by
+  have hu : updPc s.pc = true := by rw [hp]; rfl
+  have hu' : updPc s'.pc = true := by rw [hp']; rfl
+  have hnpz := h.rg.regCcb hp
+  have hin : ∀ t, InDone s t → InDone s' t := by
+    intro t ht; exact ⟨hu', by rw [hd]; exact (mem_keys_aset _ _ _ _).mpr (Or.inr ht.2)⟩
+  have hinc : InDone s' s.t := ⟨hu', by rw [hd]; exact (mem_keys_aset _ _ _ _).mpr (Or.inl rfl)⟩
+  have hin' : ∀ t, t ≠ s.t → InDone s' t → InDone s t := by
+    intro t hne ht
+    refine ⟨hu, ?_⟩
+    have := ht.2; rw [hd] at this
+    rcases (mem_keys_aset _ _ _ _).mp this with h1 | h1
+    · exact absurd h1 hne
+    · exact h1
+  refine ⟨⟨?_, ?_, ?_⟩, ⟨?_, ?_, ?_⟩, h.dd.move hk hss hn,
+    h.bs.move hk hb (fun hc => by rw [hp'] at hc; cases hc), KReg.out (by rw [hp']; rfl)⟩
+  · intro t ht; rw [hr] at ht
+    rcases h.lv.live t ht with h1 | h1 | h1
+    · exact Or.inl (hin t h1)
+    · exact Or.inr (Or.inl (by rw [hk]; exact h1))
+    · rw [h1.2]; exact Or.inl hinc
+  · intro t ht hs; rw [hr] at ht; rw [hss] at hs; exact hin t (h.lv.stp t ht hs)
+  · intro t hpz; rw [hk] at hpz
+    rcases h.lv.pausedRun t hpz with h1 | h1
+    · exact Or.inl (by rw [hr]; exact h1)
+    · exact Or.inr (hin t h1)
+  · intro t ht; rw [hr] at ht; rw [hl]; exact h.ls.act t ht
+  · intro t ht; rw [hl] at ht; rw [hn]; exact h.ls.boundL t ht
+  · intro t hpz; rw [hk] at hpz
+    have hne : t ≠ s.t := by intro hc; rw [hc] at hpz; exact hnpz hpz
+    rcases h.ls.pausedSt t hpz with h1 | h1
+    · exact Or.inl ⟨hu', by rw [hd, alookup_aset_ne _ _ _ _ hne]; exact h1.2⟩
+    · exact Or.inr ⟨fun hcc => h1.1 (hin' t hne hcc), by rw [hl]; exact h1.2⟩
+
+/-- an item whose trial is already done with status `completed`: straight to the callbacks -/
+theorem KBody.directCcb {s s' : LState} (h : KBody s) (hp : s.pc = .second) (hp' : s'.pc = .completeCb)
+    (hkd : s'.t ∈ keys s.done) (hnp : alookup s'.t s.done ≠ some .paused)
+    (hr : s'.running = s.running) (hl : s'.status.last = s.status.last)
+    (hn : s'.nStarted = s.nStarted) (hd : s'.done = s.done) (hk : s'.kst = s.kst)
+    (hb : s'.bst = s.bst) (hss : s'.schedStopped = s.schedStopped) : KBody s' := by
+  have hu : updPc s'.pc = updPc s.pc := by rw [hp, hp']; rfl
+  refine ⟨h.lv.move hr hk hss hd hu (fun hc => by rw [hp] at hc; cases hc), h.ls.move hr hk hl hd hn hu,
+    h.dd.move hk hss hn, h.bs.move hk hb (fun hc => by rw [hp'] at hc; cases hc), ?_⟩
+  have hne : ∀ {p : Pc}, p ≠ .completeCb → s'.pc ≠ p := fun hpp hc => hpp (by rw [← hc, hp'])
+  refine ⟨?_, ?_, ?_, ?_, ?_, ?_, ?_⟩
+  · rintro (hc | hc) <;> exact absurd hc (hne (by decide))
+  · rintro (hc | hc) <;> exact absurd hc (hne (by decide))
+  · intro hc; exact absurd hc (hne (by decide))
+  · intro hc; exact absurd hc (hne (by decide))
+  · intro hc; exact absurd hc (hne (by decide))
+  · intro hc; exact absurd hc (hne (by decide))
+  · intro _ hpz; rw [hk] at hpz
+    have hus : updPc s.pc = true := by rw [hp]; rfl
+    rcases h.ls.pausedSt _ hpz with h1 | h1
+    · exact hnp h1.2
+    · exact h1.1 ⟨hus, hkd⟩
+
+
+/-! ### the end of `_process_new_results` -/
+
+theorem active_of_processed {s : LState} (hS : SInv s) (h : KBody s) (hp : s.pc = .afterUpd) (t : Nat) (st : St)
+    (hm : (t, st) ∈ s.sd) (hnd : t ∉ keys s.done) : st = .inProgress ∨ st = .stopping := by
+  have hu : updPc s.pc = true := by rw [hp]; rfl
+  obtain ⟨pre, hsd, hpre⟩ := hS.p2 (Or.inr hp)
+  rw [hS.p2end hp, List.append_nil] at hsd
+  have hm' : (t, st) ∈ pre := by rw [← hsd]; exact hm
+  obtain ⟨h1, h2, h3⟩ := hpre _ hm'
+  have hrun := (hS.sdRun hu _ hm).1
+  have hnp := (hS.sdRun hu _ hm).2
+  cases st with
+  | inProgress => exact Or.inl rfl
+  | stopping => exact Or.inr rfl
+  | paused => exact absurd rfl hnp
+  | completed => exact absurd (h2 rfl) hnd
+  | failed => exact absurd ((hasKey_iff_mem_keys _ _).mp (by unfold hasKey; rw [h1 rfl]; rfl)) hnd
+  | stopped =>
+    by_cases hss : t ∈ s.schedStopped
+    · exact absurd (h.lv.stp t hrun hss).2 hnd
+    · exact absurd (h3 rfl hss) hnd
+
+theorem KBody.afterUpdate {s : LState} (h : KBody s) (hS : SInv s) (hp : s.pc = .afterUpd) :
+    KBody (afterUpdate s) := by
+  have hu : updPc s.pc = true := by rw [hp]; rfl
+  have hdn := (hS.doneOK hu).1
+  have hds := (hS.doneOK hu).2
+  have hsdn := hS.sdNodup hu
+  have hk' : keys (aupdate s.sd s.done) = keys s.sd := keys_aupdate_of_subset _ _ hds
+  have hpc : updPc (Tuner.afterUpdate s).pc = false := by
+    rcases afterUpdate_pc s with hh | hh | hh <;> rw [hh] <;> rfl
+  have hreg : regPc (Tuner.afterUpdate s).pc = false := by
+    rcases afterUpdate_pc s with hh | hh | hh <;> rw [hh] <;> rfl
+  have hnrp : (Tuner.afterUpdate s).pc ≠ .removeP := by
+    rcases afterUpdate_pc s with hh | hh | hh <;> rw [hh] <;> decide
+  have hncc : (Tuner.afterUpdate s).pc ≠ .completeCb := by
+    rcases afterUpdate_pc s with hh | hh | hh <;> rw [hh] <;> decide
+  have hnin : ∀ t, ¬ InDone (Tuner.afterUpdate s) t := fun t hc => by rw [hc.1] at hpc; cases hpc
+  have hlast : (Tuner.afterUpdate s).status.last = aupdate s.status.last (aupdate s.sd s.done) := update_last _ _ _
+  have hrun : ∀ t, t ∈ (Tuner.afterUpdate s).running ↔ t ∈ s.running ∧ t ∉ keys s.done := by
+    intro t
+    show t ∈ s.running.filter (fun t => !hasKey t s.done) ↔ _
+    rw [List.mem_filter]
+    constructor
+    · rintro ⟨h1, h2⟩
+      refine ⟨h1, ?_⟩
+      cases hh : hasKey t s.done
+      · exact (hasKey_false_iff _ _).mp hh
+      · rw [hh] at h2; cases h2
+    · rintro ⟨h1, h2⟩
+      exact ⟨h1, by rw [(hasKey_false_iff _ _).mpr h2]; rfl⟩
+  -- the recorded status of a trial after the update
+  have hlk : ∀ t, alookup t (Tuner.afterUpdate s).status.last =
+      match alookup t s.done with
+      | some w => some w
+      | none => match alookup t s.sd with
+        | some v => some v
+        | none => alookup t s.status.last := by
+    intro t
+    rw [hlast, alookup_aupdate _ _ _ (by rw [hk']; exact hsdn), alookup_aupdate _ _ _ hdn]
+    cases hd : alookup t s.done with
+    | some w => rfl
+    | none =>
+      simp only []
+      cases hsd : alookup t s.sd <;> rfl
+  have hkst : (Tuner.afterUpdate s).kst = s.kst := rfl
+  have hss : (Tuner.afterUpdate s).schedStopped = s.schedStopped := rfl
+  refine ⟨⟨?_, ?_, ?_⟩, ⟨?_, ?_, ?_⟩, h.dd.move rfl rfl rfl, h.bs.move rfl rfl (fun hc => absurd hc hnrp),
+    KReg.out hreg⟩
+  · intro t ht
+    obtain ⟨h1, h2⟩ := (hrun t).mp ht
+    rcases h.lv.live t h1 with h3 | h3 | h3
+    · exact absurd h3.2 h2
+    · exact Or.inr (Or.inl h3)
+    · rw [hp] at h3; exact nomatch h3.1
+  · intro t ht hs
+    obtain ⟨h1, h2⟩ := (hrun t).mp ht
+    exact absurd (h.lv.stp t h1 hs).2 h2
+  · intro t hpz
+    rcases h.lv.pausedRun t hpz with h1 | h1
+    · exact Or.inl (fun hc => h1 ((hrun t).mp hc).1)
+    · exact Or.inl (fun hc => ((hrun t).mp hc).2 h1.2)
+  · intro t ht
+    obtain ⟨h1, h2⟩ := (hrun t).mp ht
+    rw [hlk t, (alookup_eq_none_iff _ _).mpr h2]
+    simp only []
+    cases hsd : alookup t s.sd with
+    | none => exact h.ls.act t h1
+    | some v =>
+      simp only []
+      rcases active_of_processed hS h hp t v (mem_of_alookup hsd) h2 with h3 | h3 <;> rw [h3]
+      · exact Or.inl rfl
+      · exact Or.inr rfl
+  · intro t ht
+    rw [hlast] at ht
+    rcases (mem_keys_aupdate _ _ _).mp ht with h1 | h1
+    · exact h.ls.boundL t h1
+    · rw [hk'] at h1
+      obtain ⟨kv, hkv, hkk⟩ := List.mem_map.mp h1
+      have hr := (hS.sdRun hu kv hkv).1
+      rw [hkk] at hr
+      apply h.ls.boundL
+      rcases h.ls.act _ hr with h3 | h3 <;> exact (hasKey_iff_mem_keys _ _).mp (by unfold hasKey; rw [h3]; rfl)
+  · intro t hpz
+    refine Or.inr ⟨hnin t, ?_⟩
+    rw [hlk t]
+    rcases h.ls.pausedSt t hpz with h1 | h1
+    · rw [h1.2]
+    · have hnd : t ∉ keys s.done := fun hc => h1.1 ⟨hu, hc⟩
+      rw [(alookup_eq_none_iff _ _).mpr hnd]
+      simp only []
+      have hnsd : t ∉ keys s.sd := by
+        intro hc
+        obtain ⟨kv, hkv, hkk⟩ := List.mem_map.mp hc
+        have hr := (hS.sdRun hu kv hkv).1
+        rw [hkk] at hr
+        rcases h.lv.pausedRun t hpz with h2 | h2
+        · exact h2 hr
+        · exact hnd h2.2
+      rw [(alookup_eq_none_iff _ _).mpr hnsd]
+      exact h1.2
+
+
+/-! ### scheduling -/
+
+/-- a step between control points of the scheduling loop that only sets registers -/
+theorem KBody.regMove {s s' : LState} (h : KBody s) (hr : s'.running = s.running) (hk : s'.kst = s.kst)
+    (hl : s'.status.last = s.status.last) (hss : s'.schedStopped = s.schedStopped) (hd : s'.done = s.done)
+    (hb : s'.bst = s.bst) (hn : s'.nStarted = s.nStarted)
+    (hu : updPc s'.pc = updPc s.pc) (hcc : s.pc ≠ .completeCb) (hrp : s'.pc ≠ .removeP) (hreg : KReg s') : KBody s' :=
+  ⟨h.lv.move hr hk hss hd hu (fun hc => absurd hc hcc), h.ls.move hr hk hl hd hn hu, h.dd.move hk hss hn,
+   h.bs.move hk hb (fun hc => absurd hc hrp), hreg⟩
+
+theorem KReg.only {s' : LState} (p : Pc) (hp : s'.pc = p)
+    (h1 : (p = .startCmd ∨ p = .copyCmd) → s'.sId = s'.nStarted)
+    (h2 : (p = .addS ∨ p = .startCb) → s'.sId + 1 = s'.nStarted ∧ s'.sId ∉ keys s'.status.last)
+    (h3 : p = .addS → s'.sId ∉ keys s'.kst)
+    (h4 : p = .startCb → alookup s'.sId s'.kst = some .live)
+    (h5 : p = .resumeCmd → alookup s'.sId s'.kst = some .paused)
+    (h6 : p = .resumeCb → alookup s'.sId s'.status.last = some .paused ∧ alookup s'.sId s'.kst = some .live)
+    (h7 : p = .completeCb → alookup s'.t s'.kst ≠ some .paused) : KReg s' := by
+  subst hp
+  exact ⟨h1, h2, h3, h4, h5, h6, h7⟩
+
+/-- `backend.start_trial` has registered the new trial -/
+theorem KBody.started {s : LState} (h : KBody s) (hp : s.pc = .startCmd ∨ s.pc = .copyCmd) : KBody (started s) := by
+  have hsid := h.rg.regStart hp
+  have hu : updPc (Tuner.started s).pc = updPc s.pc := by rcases hp with hp | hp <;> rw [hp] <;> rfl
+  have hncc : s.pc ≠ .completeCb := by rcases hp with hp | hp <;> rw [hp] <;> decide
+  refine ⟨h.lv.move rfl rfl rfl rfl hu (fun hc => absurd hc hncc), ⟨h.ls.act, ?_, ?_⟩, ⟨h.dd.dead, ?_⟩, ⟨?_, ?_⟩, ?_⟩
+  · intro t ht; exact Nat.lt_succ_of_lt (h.ls.boundL t ht)
+  · intro t hpz
+    rcases h.ls.pausedSt t hpz with h1 | h1
+    · exact Or.inl (by rw [hu]; exact h1)
+    · exact Or.inr ⟨fun hc => h1.1 ⟨by rw [← hu]; exact hc.1, hc.2⟩, h1.2⟩
+  · intro t ht; exact Nat.lt_succ_of_lt (h.dd.boundK t ht)
+  · intro t hpz
+    have hpz' : alookup t s.kst = some .paused := hpz
+    have hlt := h.dd.boundK t ((hasKey_iff_mem_keys _ _).mp (by unfold hasKey; rw [hpz']; rfl))
+    have hne : t ≠ s.sId := by rw [hsid]; exact Nat.ne_of_lt hlt
+    show alookup t (aset s.sId St.inProgress s.bst) = some St.paused
+    rw [alookup_aset_ne _ _ _ _ hne]; exact h.bs.pausedBst t hpz
+  · intro hc; cases hc
+  · refine KReg.only .addS rfl (by rintro (hc | hc) <;> cases hc) (fun _ => ⟨by show s.sId + 1 = s.nStarted + 1; rw [hsid], ?_⟩)
+      (fun _ => ?_) (fun hc => nomatch hc) (fun hc => nomatch hc) (fun hc => nomatch hc) (fun hc => nomatch hc)
+    · intro hc
+      have : s.sId < s.nStarted := h.ls.boundL _ hc
+      rw [hsid] at this; exact Nat.lt_irrefl _ this
+    · intro hc
+      have : s.sId < s.nStarted := h.dd.boundK _ hc
+      rw [hsid] at this; exact Nat.lt_irrefl _ this
+
+/-- `scheduler.on_trial_add` returned -/
+theorem KBody.added {s s' : LState} (h : KBody s) (hp : s.pc = .addS) (hp' : s'.pc = .startCb)
+    (hsid : s'.sId = s.sId) (hr : s'.running = s.running) (hk : s'.kst = aset s.sId .live s.kst)
+    (hl : s'.status.last = s.status.last) (hss : s'.schedStopped = s.schedStopped) (hd : s'.done = s.done)
+    (hb : s'.bst = s.bst) (hn : s'.nStarted = s.nStarted) : KBody s' := by
+  have hu : updPc s'.pc = updPc s.pc := by rw [hp, hp']; rfl
+  have hin := inDone_congr hu hd
+  have hnk := h.rg.regAddK hp
+  have hadd := h.rg.regAdd (Or.inl hp)
+  have hkne : ∀ t, t ∈ keys s.kst → alookup t s'.kst = alookup t s.kst := by
+    intro t ht
+    have hne : t ≠ s.sId := fun hc => hnk (hc ▸ ht)
+    rw [hk, alookup_aset_ne _ _ _ _ hne]
+  have hkc : alookup s.sId s'.kst = some .live := by rw [hk]; exact alookup_aset_self _ _ _
+  have hold : ∀ t v, v ≠ KSt.live → alookup t s'.kst = some v → alookup t s.kst = some v := by
+    intro t v hv ht
+    by_cases hc : t = s.sId
+    · rw [hc, hkc] at ht; injection ht with ht; exact absurd ht.symm hv
+    · rw [hk, alookup_aset_ne _ _ _ _ hc] at ht; exact ht
+  refine ⟨⟨?_, ?_, ?_⟩, ⟨?_, ?_, ?_⟩, ⟨?_, ?_⟩, ⟨?_, fun hc => by rw [hp'] at hc; cases hc⟩, ?_⟩
+  · intro t ht; rw [hr] at ht
+    rcases h.lv.live t ht with h1 | h1 | h1
+    · exact Or.inl ((hin t).mpr h1)
+    · refine Or.inr (Or.inl ?_)
+      rw [hkne t ((hasKey_iff_mem_keys _ _).mp (by unfold hasKey; rw [h1]; rfl))]; exact h1
+    · rw [hp] at h1; exact nomatch h1.1
+  · intro t ht hs; rw [hr] at ht; rw [hss] at hs; exact (hin t).mpr (h.lv.stp t ht hs)
+  · intro t hpz
+    rcases h.lv.pausedRun t (hold t _ (by decide) hpz) with h1 | h1
+    · exact Or.inl (by rw [hr]; exact h1)
+    · exact Or.inr ((hin t).mpr h1)
+  · intro t ht; rw [hr] at ht; rw [hl]; exact h.ls.act t ht
+  · intro t ht; rw [hl] at ht; rw [hn]; exact h.ls.boundL t ht
+  · intro t hpz
+    rcases h.ls.pausedSt t (hold t _ (by decide) hpz) with h1 | h1
+    · exact Or.inl (by rw [hu, hd]; exact h1)
+    · exact Or.inr ⟨fun hc => h1.1 ((hin t).mp hc), by rw [hl]; exact h1.2⟩
+  · intro t ht; rw [hss] at ht
+    have := h.dd.dead t ht
+    rw [hkne t ((hasKey_iff_mem_keys _ _).mp (by unfold hasKey; rw [this]; rfl))]; exact this
+  · intro t ht; rw [hk] at ht; rw [hn]
+    rcases (mem_keys_aset _ _ _ _).mp ht with h1 | h1
+    · rw [h1]; have := hadd.1; omega
+    · exact h.dd.boundK t h1
+  · intro t hpz; rw [hb]; exact h.bs.pausedBst t (hold t _ (by decide) hpz)
+  · refine KReg.only .startCb hp' (by rintro (hc | hc) <;> cases hc) (fun _ => ?_) (fun hc => nomatch hc) (fun _ => ?_)
+      (fun hc => nomatch hc) (fun hc => nomatch hc) (fun hc => nomatch hc)
+    · rw [hsid, hn, hl]; exact hadd
+    · rw [hsid]; exact hkc
+
+/-- `backend.resume_trial` returned -/
+theorem KBody.resumed {s s' : LState} (h : KBody s) (hp : s.pc = .resumeCmd) (hp' : s'.pc = .resumeCb)
+    (hsid : s'.sId = s.sId) (hr : s'.running = s.running) (hk : s'.kst = aset s.sId .live s.kst)
+    (hl : s'.status.last = s.status.last) (hss : s'.schedStopped = s.schedStopped) (hd : s'.done = s.done)
+    (hb : s'.bst = aset s.sId .inProgress s.bst) (hn : s'.nStarted = s.nStarted) : KBody s' := by
+  have hu : updPc s'.pc = updPc s.pc := by rw [hp, hp']; rfl
+  have hnu : updPc s.pc = false := by rw [hp]; rfl
+  have hin := inDone_congr hu hd
+  have hpz0 := h.rg.regResume hp
+  have hkc : alookup s.sId s'.kst = some .live := by rw [hk]; exact alookup_aset_self _ _ _
+  have hkne : ∀ t, t ≠ s.sId → alookup t s'.kst = alookup t s.kst := by
+    intro t hne; rw [hk, alookup_aset_ne _ _ _ _ hne]
+  have hold : ∀ t v, v ≠ KSt.live → alookup t s'.kst = some v → t ≠ s.sId ∧ alookup t s.kst = some v := by
+    intro t v hv ht
+    by_cases hc : t = s.sId
+    · rw [hc, hkc] at ht; injection ht with ht; exact absurd ht.symm hv
+    · exact ⟨hc, by rw [← hkne t hc]; exact ht⟩
+  have hnrun : s.sId ∉ s.running := by
+    rcases h.lv.pausedRun _ hpz0 with h1 | h1
+    · exact h1
+    · rw [h1.1] at hnu; cases hnu
+  refine ⟨⟨?_, ?_, ?_⟩, ⟨?_, ?_, ?_⟩, ⟨?_, ?_⟩, ⟨?_, fun hc => by rw [hp'] at hc; cases hc⟩, ?_⟩
+  · intro t ht; rw [hr] at ht
+    have hne : t ≠ s.sId := fun hc => hnrun (hc ▸ ht)
+    rcases h.lv.live t ht with h1 | h1 | h1
+    · exact Or.inl ((hin t).mpr h1)
+    · exact Or.inr (Or.inl (by rw [hkne t hne]; exact h1))
+    · rw [hp] at h1; exact nomatch h1.1
+  · intro t ht hs; rw [hr] at ht; rw [hss] at hs; exact (hin t).mpr (h.lv.stp t ht hs)
+  · intro t hpz
+    rcases h.lv.pausedRun t (hold t _ (by decide) hpz).2 with h1 | h1
+    · exact Or.inl (by rw [hr]; exact h1)
+    · exact Or.inr ((hin t).mpr h1)
+  · intro t ht; rw [hr] at ht; rw [hl]; exact h.ls.act t ht
+  · intro t ht; rw [hl] at ht; rw [hn]; exact h.ls.boundL t ht
+  · intro t hpz
+    rcases h.ls.pausedSt t (hold t _ (by decide) hpz).2 with h1 | h1
+    · exact Or.inl (by rw [hu, hd]; exact h1)
+    · exact Or.inr ⟨fun hc => h1.1 ((hin t).mp hc), by rw [hl]; exact h1.2⟩
+  · intro t ht; rw [hss] at ht
+    have hdd := h.dd.dead t ht
+    have hne : t ≠ s.sId := by intro hc; rw [hc, hpz0] at hdd; cases hdd
+    rw [hkne t hne]; exact hdd
+  · intro t ht; rw [hk] at ht; rw [hn]
+    rcases (mem_keys_aset _ _ _ _).mp ht with h1 | h1
+    · rw [h1]; exact h.dd.boundK _ ((hasKey_iff_mem_keys _ _).mp (by unfold hasKey; rw [hpz0]; rfl))
+    · exact h.dd.boundK t h1
+  · intro t hpz
+    obtain ⟨hne, hpz'⟩ := hold t _ (by decide) hpz
+    rw [hb, alookup_aset_ne _ _ _ _ hne]; exact h.bs.pausedBst t hpz'
+  · refine KReg.only .resumeCb hp' (by rintro (hc | hc) <;> cases hc) (by rintro (hc | hc) <;> cases hc)
+      (fun hc => nomatch hc) (fun hc => nomatch hc) (fun hc => nomatch hc) (fun _ => ?_) (fun hc => nomatch hc)
+    rw [hsid, hl]
+    refine ⟨?_, hkc⟩
+    rcases h.ls.pausedSt _ hpz0 with h1 | h1
+    · rw [h1.1] at hnu; cases hnu
+    · exact h1.2
+
+/-- the trial `u` (live for the scheduler; new, or paused in the loop's records) joins the running set -/
+theorem KBody.scheduled {s : LState} (h : KBody s) (hnu : updPc s.pc = false) (u : Nat)
+    (hlive : alookup u s.kst = some .live) (hlt : u < s.nStarted) : KBody (scheduled s u) := by
+  have hnin : ∀ t, ¬ InDone s t := fun t hc => by rw [hc.1] at hnu; cases hnu
+  have hnin' : ∀ t, ¬ InDone (Tuner.scheduled s u) t := fun t hc => by cases hc.1
+  have hlast : (Tuner.scheduled s u).status.last = aset u .inProgress s.status.last := by
+    unfold Tuner.scheduled addRunning
+    split <;> exact update_last _ _ _
+  have hkst : (Tuner.scheduled s u).kst = s.kst := by unfold Tuner.scheduled addRunning; split <;> rfl
+  have hss : (Tuner.scheduled s u).schedStopped = s.schedStopped := by unfold Tuner.scheduled addRunning; split <;> rfl
+  have hbst : (Tuner.scheduled s u).bst = s.bst := by unfold Tuner.scheduled addRunning; split <;> rfl
+  have hn : (Tuner.scheduled s u).nStarted = s.nStarted := by unfold Tuner.scheduled addRunning; split <;> rfl
+  have hrun : ∀ t, t ∈ (Tuner.scheduled s u).running → t = u ∨ t ∈ s.running := by
+    intro t
+    unfold Tuner.scheduled addRunning
+    split
+    · intro hh; exact Or.inr hh
+    · intro hh; exact (mem_sadd _ _ _).mp hh
+  have hnss : u ∉ s.schedStopped := by intro hc; have := h.dd.dead u hc; rw [hlive] at this; cases this
+  refine ⟨⟨?_, ?_, ?_⟩, ⟨?_, ?_, ?_⟩, h.dd.move hkst hss hn, ⟨?_, fun hc => nomatch hc⟩, KReg.out rfl⟩
+  · intro t ht
+    rcases hrun t ht with h1 | h1
+    · rw [h1, hkst]; exact Or.inr (Or.inl hlive)
+    · rcases h.lv.live t h1 with h2 | h2 | h2
+      · exact absurd h2 (hnin t)
+      · exact Or.inr (Or.inl (by rw [hkst]; exact h2))
+      · rw [h2.1] at hnu; cases hnu
+  · intro t ht hs; rw [hss] at hs
+    rcases hrun t ht with h1 | h1
+    · exact absurd (h1 ▸ hs) hnss
+    · exact absurd (h.lv.stp t h1 hs) (hnin t)
+  · intro t hpz; rw [hkst] at hpz
+    refine Or.inl (fun hc => ?_)
+    rcases hrun t hc with h1 | h1
+    · rw [h1, hlive] at hpz; cases hpz
+    · rcases h.lv.pausedRun t hpz with h2 | h2
+      · exact h2 h1
+      · exact hnin t h2
+  · intro t ht
+    rw [hlast, alookup_aset]
+    by_cases hc : t = u
+    · simp only [hc, if_true]; exact Or.inl rfl
+    · simp only [hc, if_false]
+      rcases hrun t ht with h1 | h1
+      · exact absurd h1 hc
+      · exact h.ls.act t h1
+  · intro t ht; rw [hlast] at ht; rw [hn]
+    rcases (mem_keys_aset _ _ _ _).mp ht with h1 | h1
+    · rw [h1]; exact hlt
+    · exact h.ls.boundL t h1
+  · intro t hpz; rw [hkst] at hpz
+    have hne : t ≠ u := by intro hc; rw [hc, hlive] at hpz; cases hpz
+    refine Or.inr ⟨hnin' t, ?_⟩
+    rw [hlast, alookup_aset_ne _ _ _ _ hne]
+    rcases h.ls.pausedSt t hpz with h1 | h1
+    · rw [h1.1] at hnu; cases hnu
+    · exact h1.2
+  · intro t hpz; rw [hkst] at hpz; rw [hbst]; exact h.bs.pausedBst t hpz
+
+
+/-! ### the machine -/
+
+theorem KBody.addRow {s : LState} (h : KBody s) : KBody (addRow s) := by
+  unfold Tuner.addRow
+  split
+  · exact ⟨⟨h.lv.live, h.lv.stp, h.lv.pausedRun⟩, ⟨h.ls.act, h.ls.boundL, h.ls.pausedSt⟩, ⟨h.dd.dead, h.dd.boundK⟩,
+      ⟨h.bs.pausedBst, h.bs.regPause⟩,
+      ⟨h.rg.regStart, h.rg.regAdd, h.rg.regAddK, h.rg.regStartCb, h.rg.regResume, h.rg.regResumeCb, h.rg.regCcb⟩⟩
+  · exact h
+
+theorem KBody.removedS {s s' : LState} (h : KBody s) (hS : SInv s) (hp : s.pc = .removeS) (hp' : s'.pc = .nextRes)
+    (hr : s'.running = s.running) (hl : s'.status.last = s.status.last) (hn : s'.nStarted = s.nStarted)
+    (hd : s'.done = aset s.cur.tid s.curSt s.done) (hk : s'.kst = aset s.cur.tid .dead s.kst) (hb : s'.bst = s.bst)
+    (hss : s'.schedStopped = sadd s.cur.tid s.schedStopped) : KBody s' := by
+  have hcr : curResPc s.pc = true := by rw [hp]; rfl
+  obtain ⟨_, _, _, _, hlt⟩ := cur_facts hS h hcr
+  exact h.ended s.cur.tid s.curSt .dead (by rw [hp]; rfl) (by rw [hp']; rfl) (fun hc => nomatch hc) hlt
+    (by rw [hp]; decide) hr hl hn hd hk hb (Or.inr ⟨rfl, hss⟩) (Or.inl rfl) (by rw [hp']; rfl) (by rw [hp']; decide)
+
+theorem KBody.removedP {s s' : LState} (h : KBody s) (hS : SInv s) (hp : s.pc = .removeP) (hp' : s'.pc = .nextRes)
+    (hr : s'.running = s.running) (hl : s'.status.last = s.status.last) (hn : s'.nStarted = s.nStarted)
+    (hd : s'.done = aset s.cur.tid .paused s.done) (hk : s'.kst = aset s.cur.tid .paused s.kst) (hb : s'.bst = s.bst)
+    (hss : s'.schedStopped = s.schedStopped) : KBody s' := by
+  have hcr : curResPc s.pc = true := by rw [hp]; rfl
+  obtain ⟨_, _, _, hnss, hlt⟩ := cur_facts hS h hcr
+  exact h.ended s.cur.tid .paused .paused (by rw [hp]; rfl) (by rw [hp']; rfl) (fun _ => hnss) hlt
+    (by rw [hp]; decide) hr hl hn hd hk hb (Or.inl hss) (Or.inr ⟨rfl, rfl, h.bs.regPause hp⟩) (by rw [hp']; rfl)
+    (by rw [hp']; decide)
+
+theorem KBody.itemEnded {s s' : LState} (h : KBody s) (hS : SInv s) (hp : s.pc = .completeS ∨ s.pc = .errorS)
+    (hp' : s'.pc = .second)
+    (hr : s'.running = s.running) (hl : s'.status.last = s.status.last) (hn : s'.nStarted = s.nStarted)
+    (hd : s'.done = aset s.t s.tSt s.done) (hk : s'.kst = aset s.t .dead s.kst) (hb : s'.bst = s.bst)
+    (hss : s'.schedStopped = s.schedStopped) : KBody s' := by
+  have hci : curItemPc s.pc = true := by rcases hp with hp | hp <;> rw [hp] <;> rfl
+  obtain ⟨_, hlt, _⟩ := item_facts hS h hci
+  exact h.ended s.t s.tSt .dead (curItem_upd _ hci) (by rw [hp']; rfl) (fun hc => nomatch hc) hlt
+    (by rcases hp with hp | hp <;> rw [hp] <;> decide) hr hl hn hd hk hb (Or.inl hss) (Or.inl rfl) (by rw [hp']; rfl)
+    (by rw [hp']; decide)
+
+theorem KBody.secondItem {s : LState} (h : KBody s) (hp : s.pc = .second) (t : Nat) (st : St)
+    (rest : List (Nat × St)) : KBody (secondItem s t st rest) := by
+  have mv : ∀ s' : LState, s'.running = s.running → s'.kst = s.kst → s'.status.last = s.status.last →
+      s'.schedStopped = s.schedStopped → s'.done = s.done → s'.bst = s.bst → s'.nStarted = s.nStarted →
+      updPc s'.pc = true → regPc s'.pc = false → s'.pc ≠ .removeP → KBody s' := by
+    intro s' h1 h2 h3 h4 h5 h6 h7 h8 h9 h10
+    exact h.move h1 h2 h3 h4 h5 h6 h7 (by rw [h8, hp]; rfl) h9 (by rw [hp]; intro hc; cases hc) h10
+  cases st with
+  | failed => simp only [Tuner.secondItem]; exact mv _ rfl rfl rfl rfl rfl rfl rfl rfl rfl (fun hc => nomatch hc)
+  | stopped =>
+    simp only [Tuner.secondItem]
+    by_cases hss : t ∈ s.schedStopped
+    · simp only [hss, if_true]; exact mv _ rfl rfl rfl rfl rfl rfl rfl (by rw [hp]; rfl) (by rw [hp]; rfl) (by rw [hp]; intro hc; cases hc)
+    · simp only [hss, if_false]; exact mv _ rfl rfl rfl rfl rfl rfl rfl rfl rfl (fun hc => nomatch hc)
+  | completed =>
+    simp only [Tuner.secondItem]
+    cases hls : alookup t s.lastSeen with
+    | none => simp only []; exact mv _ rfl rfl rfl rfl rfl rfl rfl rfl rfl (fun hc => nomatch hc)
+    | some rid =>
+      simp only []
+      by_cases hk : hasKey t s.done = true
+      · by_cases hpz : alookup t s.done = some St.paused
+        · simp only [hk, hpz, if_true, Bool.not_true, Bool.false_eq_true, if_false]
+          rw [aset_eq_self _ _ _ hpz]
+          exact mv _ rfl rfl rfl rfl rfl rfl rfl (by rw [hp]; rfl) (by rw [hp]; rfl) (by rw [hp]; intro hc; cases hc)
+        · simp only [hk, hpz, if_true, Bool.not_true, Bool.false_eq_true, if_false]
+          exact h.directCcb hp rfl ((hasKey_iff_mem_keys _ _).mp hk) hpz rfl rfl rfl rfl rfl rfl rfl
+      · have hk' : hasKey t s.done = false := by cases hh : hasKey t s.done <;> simp_all
+        simp only [hk', Bool.not_false, if_true]
+        exact mv _ rfl rfl rfl rfl rfl rfl rfl rfl rfl (fun hc => nomatch hc)
+  | inProgress => simp only [Tuner.secondItem]; exact mv _ rfl rfl rfl rfl rfl rfl rfl (by rw [hp]; rfl) (by rw [hp]; rfl) (by rw [hp]; intro hc; cases hc)
+  | paused => simp only [Tuner.secondItem]; exact mv _ rfl rfl rfl rfl rfl rfl rfl (by rw [hp]; rfl) (by rw [hp]; rfl) (by rw [hp]; intro hc; cases hc)
+  | stopping => simp only [Tuner.secondItem]; exact mv _ rfl rfl rfl rfl rfl rfl rfl (by rw [hp]; rfl) (by rw [hp]; rfl) (by rw [hp]; intro hc; cases hc)
+
+theorem KBody.sugStart {s : LState} (h : KBody s) (hp : s.pc = .suggest) (cfg : Nat) (ck : Option Nat) :
+    KBody { s with pc := .startCmd, sId := s.nStarted, sCfg := cfg, sCkpt := ck } :=
+  h.regMove rfl rfl rfl rfl rfl rfl rfl (by rw [hp]; rfl) (by rw [hp]; intro hc; cases hc) (fun hc => nomatch hc)
+    (KReg.only .startCmd rfl (fun _ => rfl) (by rintro (hc | hc) <;> cases hc) (fun hc => nomatch hc)
+      (fun hc => nomatch hc) (fun hc => nomatch hc) (fun hc => nomatch hc) (fun hc => nomatch hc))
+
+theorem KBody.sugResume {s : LState} (h : KBody s) (hp : s.pc = .suggest) (id : Nat) (cfg : Option Nat)
+    (hK : alookup id s.kst = some .paused) : KBody { s with pc := .resumeCmd, sId := id, sRCfg := cfg } :=
+  h.regMove rfl rfl rfl rfl rfl rfl rfl (by rw [hp]; rfl) (by rw [hp]; intro hc; cases hc) (fun hc => nomatch hc)
+    (KReg.only .resumeCmd rfl (by rintro (hc | hc) <;> cases hc) (by rintro (hc | hc) <;> cases hc) (fun hc => nomatch hc)
+      (fun hc => nomatch hc) (fun _ => hK) (fun hc => nomatch hc) (fun hc => nomatch hc))
+
+theorem KBody.toCopy {s : LState} (h : KBody s) (hp : s.pc = .startCmd) : KBody { s with pc := .copyCmd } :=
+  h.regMove rfl rfl rfl rfl rfl rfl rfl (by rw [hp]; rfl) (by rw [hp]; intro hc; cases hc) (fun hc => nomatch hc)
+    (KReg.only .copyCmd rfl (fun _ => h.rg.regStart (Or.inl hp)) (by rintro (hc | hc) <;> cases hc) (fun hc => nomatch hc)
+      (fun hc => nomatch hc) (fun hc => nomatch hc) (fun hc => nomatch hc) (fun hc => nomatch hc))
+
+theorem fin_closed_next (s : LState) (a : Ans) (h : finPc s.pc = true) : finPc (next s a).pc = true := by
+  have := fin_closed s a h; rwa [step_pc] at this
+
+theorem KInv_next (s : LState) (a : Ans) (hI : KInv s) (hS : SInv s) (hB : BOk s a) (hK : KOk s a) :
+    KInv (next s a) := by
+  intro hfin'
+  have hf : finPc s.pc = false := by
+    cases hh : finPc s.pc
+    · rfl
+    · rw [fin_closed_next s a hh] at hfin'; cases hfin'
+  have h := hI hf
+  have ha := h.addRow
+  revert hfin'
+  unfold next
+  split
+  all_goals (rename_i hpc)
+  all_goals (try simp only [])
+  all_goals (repeat' split)
+  all_goals (intro hfin')
+  all_goals first
+    | (rw [show finPc _ = true from rfl] at hfin'; cases hfin')
+    | exact h
+    | exact h.polled hpc _ (fun kv hkv => ((hB hpc _ _ rfl).2 kv hkv).1) rfl rfl rfl rfl rfl rfl rfl rfl
+    | exact h.stopped hS hpc _ (Or.inl rfl)
+    | exact h.stopped hS hpc _ (Or.inr rfl)
+    | exact h.pauseSent hpc
+    | exact h.removedS hS hpc rfl rfl rfl rfl rfl rfl rfl rfl
+    | exact h.removedP hS hpc rfl rfl rfl rfl rfl rfl rfl rfl
+    | exact h.secondItem hpc _ _ _
+    | exact h.toCcb hS hpc rfl rfl rfl rfl rfl rfl rfl rfl rfl
+    | exact h.itemEnded hS (Or.inl hpc) rfl rfl rfl rfl rfl rfl rfl rfl
+    | exact h.itemEnded hS (Or.inr hpc) rfl rfl rfl rfl rfl rfl rfl rfl
+    | exact h.ccbDone hpc rfl _ rfl rfl rfl rfl rfl rfl rfl
+    | exact h.afterUpdate hS hpc
+    | exact h.sugStart hpc _ _
+    | exact h.sugResume hpc _ _ (hK hpc _ _ rfl)
+    | exact h.toCopy hpc
+    | exact h.started (Or.inl hpc)
+    | exact h.started (Or.inr hpc)
+    | exact h.added hpc rfl rfl rfl rfl rfl rfl rfl rfl rfl
+    | exact h.resumed hpc rfl rfl rfl rfl rfl rfl rfl rfl rfl
+    | exact h.scheduled (by rw [hpc]; rfl) _ (h.rg.regStartCb hpc) (by have := (h.rg.regAdd (Or.inr hpc)).1; omega)
+    | exact h.scheduled (by rw [hpc]; rfl) _ (h.rg.regResumeCb hpc).2
+        (h.dd.boundK _ ((hasKey_iff_mem_keys _ _).mp (by unfold hasKey; rw [(h.rg.regResumeCb hpc).2]; rfl)))
+    | exact h.move rfl rfl rfl rfl rfl rfl rfl (by rw [hpc]; rfl) rfl (by rw [hpc]; intro hc; cases hc) (by intro hc; cases hc)
+    | exact h.move rfl rfl rfl rfl rfl rfl rfl (by show updPc s.pc = updPc s.pc; rfl) (by show regPc s.pc = false; rw [hpc]; rfl)
+        (by rw [hpc]; intro hc; cases hc) (by show s.pc ≠ Pc.removeP; rw [hpc]; intro hc; cases hc)
+    | exact ha.move rfl rfl rfl rfl rfl rfl rfl (by rw [addRow_pc, hpc]; rfl) rfl (by rw [addRow_pc, hpc]; intro hc; cases hc)
+        (by intro hc; cases hc)
+
+theorem KInv_step (s : LState) (a : Ans) (hI : KInv s) (hS : SInv s) (hB : BOk s a) (hK : KOk s a) :
+    KInv (step s a) := by
+  have h := KInv_next s a hI hS hB hK
+  rw [step_eq]
+  split
+  · exact h
+  · intro hf
+    have hb := h hf
+    exact ⟨⟨hb.lv.live, hb.lv.stp, hb.lv.pausedRun⟩, ⟨hb.ls.act, hb.ls.boundL, hb.ls.pausedSt⟩,
+      ⟨hb.dd.dead, hb.dd.boundK⟩, ⟨hb.bs.pausedBst, hb.bs.regPause⟩,
+      ⟨hb.rg.regStart, hb.rg.regAdd, hb.rg.regAddK, hb.rg.regStartCb, hb.rg.regResume, hb.rg.regResumeCb, hb.rg.regCcb⟩⟩
+
+theorem KInv_init (c : Cfg) : KInv (init c) := by
+  intro _
+  refine ⟨⟨?_, ?_, ?_⟩, ⟨?_, ?_, ?_⟩, ⟨?_, ?_⟩, ⟨?_, (fun hc => nomatch hc)⟩, KReg.out rfl⟩
+  all_goals (intro t ht; simp [init, keys, alookup] at ht)
+
+/-- both invariants along a run that obeys the contracts B and K -/
+theorem SK_run (c : Cfg) (as : List Ans) (hB : Along BOk (init c) as) (hK : Along KOk (init c) as) :
+    SInv (run (init c) as) ∧ KInv (run (init c) as) :=
+  run_inv_along (Inv := fun s => SInv s ∧ KInv s) (P := fun s a => BOk s a ∧ KOk s a)
+    (fun s a h hp => ⟨SInv_step s a h.1 hp.1, KInv_step s a h.2 h.1 hp.1 hp.2⟩)
+    as (init c) ⟨SInv_init c, KInv_init c⟩ (Along.and hB hK)
 
 end SyneTune.Tuner
